@@ -40,6 +40,11 @@ const ALPHABET: [Ev; 12] = [
     Ev::NextBlock,
 ];
 
+thread_local! {
+    /// liquidation fee of the partial staging: 0 = the fixture's 1%, 1 = zero, 2 = symbolic in [0, 10%]
+    static FEE_MODE: std::cell::Cell<u8> = std::cell::Cell::new(0);
+}
+
 /// alice 10x long, liquidatable (fully, or partially when `partial`); bob holds the other side
 fn staged(partial: bool) -> Run {
     let mut cfg = Cfg::base(false, 9);
@@ -47,7 +52,11 @@ fn staged(partial: bool) -> Run {
     cfg.init_ratio = Uint128::new(d / 10);
     if partial {
         cfg.partial_ratio = Uint128::new(d / 4);
-        cfg.liq_fee = Uint128::new(d / 100);
+        cfg.liq_fee = match FEE_MODE.with(|m| m.get()) {
+            1 => Uint128::zero(),
+            2 => crate::sx::var("liq_fee", 0, d / 10, d / 100),
+            _ => Uint128::new(d / 100),
+        };
     }
     let mut r = Run::new(cfg, Mon::none());
     symrt::set_full(false);
@@ -80,6 +89,10 @@ fn run_seq(seq: &[Ev], partial: bool, sym_last: Option<&str>) {
                 r.step(Op::PayFunding { by: EVE });
             }
             Ev::Liq => {
+                if FEE_MODE.with(|m| m.get()) == 2 && partial {
+                    // explore the liquidation for every fee (incl. a fee that rounds to zero)
+                    symrt::set_full(true);
+                }
                 let t = r.step(Op::Liquidate { by: LIQ, trader: ALICE, limit: Uint128::zero() });
                 if t.tx.ok {
                     liq_in_block = true;
@@ -152,6 +165,9 @@ fn run_seq(seq: &[Ev], partial: bool, sym_last: Option<&str>) {
 fn enumerate(len: usize, stride: usize, offset: usize, partial: bool) -> impl Fn() {
     move || {
         let n = ALPHABET.len();
+        if FEE_MODE.with(|m| m.get()) == 2 {
+            FEE_MODE.with(|m| m.set(0));
+        }
         let total = n.pow(len as u32);
         let mut idx = offset;
         while idx < total {
@@ -171,7 +187,19 @@ fn enumerate(len: usize, stride: usize, offset: usize, partial: bool) -> impl Fn
 }
 
 fn dedicated(seq: Vec<Ev>, partial: bool) -> impl Fn() {
-    move || run_seq(&seq, partial, Some("amt"))
+    move || {
+        // the liquidation fee of the partial staging is symbolic (down to a fee of zero)
+        FEE_MODE.with(|m| m.set(if partial { 2 } else { 0 }));
+        run_seq(&seq, partial, Some("amt"))
+    }
+}
+
+fn enumerate_zero_fee(len: usize, stride: usize, offset: usize) -> impl Fn() {
+    let f = enumerate(len, stride, offset, true);
+    move || {
+        FEE_MODE.with(|m| m.set(1));
+        f()
+    }
 }
 
 pub fn scenarios(seed: u64) -> Vec<Scenario> {
@@ -185,7 +213,9 @@ pub fn scenarios(seed: u64) -> Vec<Scenario> {
             v.push(sc("C16", Tier::Thorough, &format!("c16.enum.len4.{}.part{}", tag, part), de, 5, 900, enumerate(4, 8, part, partial)));
         }
     }
-    let dd = "dedicated orderings with the last trade's amount symbolic";
+    v.push(sc("C16", Tier::Quick, "c16.enum.len3.partial-zero-fee", de, 5, 150, enumerate_zero_fee(3, 1, 0)));
+    v.push(sc("C16", Tier::Thorough, "c16.enum.len4.sample.partial-zero-fee", de, 5, 300, enumerate_zero_fee(4, 23, (seed as usize) % 23)));
+    let dd = "dedicated orderings with the last trade's amount (and, for partial liquidations, the liquidation fee down to zero) symbolic";
     use Ev::*;
     let ded: Vec<(&str, Vec<Ev>)> = vec![
         ("liqopens-liq-liqcloses", vec![Open(LIQ, true), Liq, Close(LIQ)]),
